@@ -753,6 +753,11 @@ def builtin(ev, name, args, kwargs, lineno, env):
             e = e.parent
         if fref is None or fref.cls is None:
             raise Unsupported("super() outside a method")
+        if len(args) == 2 and isinstance(args[0], E.S.ClassRef) and isinstance(args[1], E.S.ClassRef):
+            # super(Start, cls): lookup continues after Start in the MRO of cls
+            return SuperProxy(args[1], args[0].name)
+        if args:
+            raise Unsupported("super() with these arguments")
         cur = env.get("cls") if "cls" in _all_vars(env) else None
         if not isinstance(cur, E.S.ClassRef):
             raise Unsupported("super() without a class receiver")
